@@ -275,29 +275,6 @@ def cExit (i : Input) (t : Trace) : Bool :=
       code == (if ks.any Kind.bad then 1 else 0) && out == .running :: (tallyOf {} 0 (dispatched ff ks)).summary
   | _, _ => false
 
-/-! ### known finding -/
-mutual
-/-- a `MultiTestResult` with a target that has no `shouldStop` (Twisted flavour).  `MultiTestResult.shouldStop` asks every
-target adapter through `__getattr__("shouldStop")` — calling the fallback hook directly, which skips the
-`ExtendedToOriginalDecorator`'s own `shouldStop` property (the one that falls back to the adapter's flag) and goes
-straight to the decorated result: reading `shouldStop` raises `AttributeError` (and, read through a further
-`ExtendedToOriginalDecorator`, whose `getattr` default swallows that error, reads false after `stop()`).  The model has
-the intended reading (the adapter's property); the code cannot be followed there. -/
-def multiOverStopless : Shape → Bool
-  | .multi cs => stoplessTarget cs || multiOverStoplessL cs
-  | .etod c | .deco c | .tagger _ _ c | .tfr c | .e2s c => multiOverStopless c
-  | _ => false
-def multiOverStoplessL : List Shape → Bool
-  | [] => false
-  | c :: cs => multiOverStopless c || multiOverStoplessL cs
-def stoplessTarget : List Shape → Bool
-  | [] => false
-  | .etod c :: cs => !(caps c).shouldStop || stoplessTarget cs
-  | _ :: cs => stoplessTarget cs
-end
-
-def multiNoShouldStop (i : Input) : Bool := multiOverStopless i.shape
-
 def clauses : List (String × (Input → Trace → Bool)) :=
   [("verdict", cVerdict), ("text-summary", cText), ("failfast-kept", cFailfastKept),
    ("failfast-stops", cFailfastStops), ("stop-sticky", cSticky), ("not-earlier", cNotEarlier),
